@@ -108,7 +108,7 @@ def run(name, props=None, tier="quick", scale=None):
             line = [l for l in r.stdout.splitlines() if l.startswith("  clause")][:1]
             print(f"{name} vs {p} [{tier}]: {status} {line[0][:170] if line else ''}")
             if r.returncode == 2:
-                print(r.stdout[-1200:], r.stderr[-800:])
+                print("   ", (r.stdout[-400:] + r.stderr[-300:]).replace("\n", " | ")[-500:])
             res[p] = status
     finally:
         sh(f"git -C /repo worktree remove --force {wt}")
